@@ -110,6 +110,11 @@ Proof.
   - apply doc_tokens_none in E. repeat split; try assumption; auto.
 Qed.
 
+Lemma memz_filter_true x (f : Z -> bool) l : memz x (filter f l) = true -> memz x l = true.
+Proof.
+  intro H. apply memz_In in H. apply filter_In in H. destruct H as [H _]. apply memz_In. exact H.
+Qed.
+
 Lemma binv_add s id toks : binv s -> binv (badd s id toks).
 Proof.
   intros Hi. pose proof (binv_remove_internal s id Hi (or_intror I)) as H. cbn zeta in H.
@@ -125,7 +130,7 @@ Proof.
   - unfold ids. rewrite map_app. cbn [map fst]. apply NoDup_app_one; assumption.
   - intros x Hx. rewrite Hd1 in Hx. unfold ids. rewrite map_app. apply in_or_app.
     destruct (Z.eq_dec x id) as [->|Hne]; [right; left; reflexivity|].
-    left. apply Hsup; [apply Hdel; exact Hx | exact Hne].
+    left. apply Hsup; [apply Hdel; eapply memz_filter_true; exact Hx | exact Hne].
 Qed.
 
 Lemma binv_remove s id : binv s -> binv (bremove s id).
